@@ -2,7 +2,7 @@
    is threaded through the lint_file calls of one Orchestrator: lint_files, lint_directory, and the runs that follow each other on
    the same object (execute_linting_on_paths).  Gen.ignore_cache_per_instance / Gen.ignore_cache_keyed_by_path_str record the
    shape found in the source.  No proofs in this file. *)
-From TL Require Import Lib.Base Lib.GenTypes Model.CollectStr Gen.CollectGen.
+From TL Require Import Lib.Base Lib.GenTypes Model.CollectStr Model.Glob Gen.CollectGen Model.Collect.
 
 Definition cache := list (string * bool).
 
@@ -39,3 +39,8 @@ Fixpoint lint_calls (key : list string -> string) (hard ign : list string -> boo
   | ps :: r => let (out, c') := lint_seq key hard ign c ps in
                let (outs, c'') := lint_calls key hard ign c' r in (out :: outs, c'')
   end.
+
+(* lint_files_parallel: after the workers returned, the parent feeds the collected files to the cross-file rules (those with a
+   finalize of their own, e.g. duplicate code) -- all but the files stopped by Gen.par_evidence_gates *)
+Definition evidence_files (q : cquirks) (abs pats : list string) (cp : list string -> list string) (ps : list (list string)) : list (list string) :=
+  filter (fun p => negb (existsb (gate_fires q abs pats cp p) par_evidence_gates)) ps.
